@@ -3,6 +3,8 @@
 set -u
 P="$1"; ID="$2"; TIER="${3:-quick}"
 cd /verif
+EVBAK=$(mktemp -d); cp -a evidence/. $EVBAK/ 2>/dev/null
+trap 'cp -a $EVBAK/. /verif/evidence/ 2>/dev/null; rm -rf $EVBAK' EXIT
 git -C /repo apply "$P" || { echo "patch does not apply"; exit 3; }
 start=$(date +%s)
 ./check "$ID" "$TIER" > /tmp/trymut.$$.out 2>&1; rc=$?
